@@ -101,6 +101,44 @@ class DimTyper:
         return None
 
 
+def is_running_max(fb, f, s, lid, src_member):
+    """is statement node s an update `x = max(x, <something of src_member>)` of local lid?  Idioms: conditional operator picking the
+    larger operand, std::max in either argument order, `if (a > x) x = a;`"""
+    def is_x(n):
+        n = strip(n)
+        return n is not None and n['k'] == 'DeclRefExpr' and n['ref'].get('lid') == lid
+
+    def mentions(n):
+        return any(x['k'] == 'MemberExpr' and x['ref'].get('name') == src_member for x in sub(n))
+
+    def same(a, b):
+        return ' '.join(fb.text(strip(a)).split()) == ' '.join(fb.text(strip(b)).split())
+    if s['k'] == 'BinaryOperator' and s.get('op') == '=' and is_x(s['c'][0]):
+        r = strip(s['c'][1])
+        if r['k'] == 'ConditionalOperator':
+            c = strip(r['c'][0])
+            if c['k'] == 'BinaryOperator' and c.get('op') in ('>', '>=', '<', '<='):
+                e1, e2, t, fl = c['c'][0], c['c'][1], r['c'][1], r['c'][2]
+                picks_larger = (same(t, e1) and same(fl, e2)) if c['op'] in ('>', '>=') else (same(t, e2) and same(fl, e1))
+                return picks_larger and (is_x(e1) or is_x(e2)) and mentions(r)
+            return False
+        if r['k'] == 'CallExpr' and r.get('callee', {}).get('q', '').startswith('std::max') and len(r.get('c', [])) == 3:
+            a, b = r['c'][1], r['c'][2]
+            return (is_x(a) and mentions(b)) or (is_x(b) and mentions(a))
+        return False
+    if s['k'] == 'IfStmt':
+        kids = [c for c in s['c'] if c is not None]
+        c = strip(kids[0])
+        body = kids[1]['c'][0] if kids[1]['k'] == 'CompoundStmt' and len(kids[1].get('c', [])) == 1 else kids[1]
+        body = strip(body)
+        if len(kids) == 2 and c['k'] == 'BinaryOperator' and c.get('op') in ('>', '>=', '<', '<=') and body['k'] == 'BinaryOperator' and body.get('op') == '=' and is_x(body['c'][0]):
+            e1, e2 = c['c'][0], c['c'][1]
+            larger = e1 if c['op'] in ('>', '>=') else e2
+            smaller = e2 if c['op'] in ('>', '>=') else e1
+            return is_x(smaller) and same(body['c'][1], larger) and mentions(larger)
+    return False
+
+
 def _skel_mod():
     from . import _skel
     return _skel
@@ -225,12 +263,9 @@ def run(rep, tier):
         over_all = False
         for lid in loc:
             for s in prep.walk():
-                if s['k'] == 'BinaryOperator' and s.get('op') == '=' and strip(s['c'][0])['k'] == 'DeclRefExpr' and strip(s['c'][0])['ref'].get('lid') == lid and strip(s['c'][1])['k'] == 'ConditionalOperator':
+                if is_running_max(fb, prep, s, lid, src_member):
                     in_loop = any(a['k'] in ('CXXForRangeStmt', 'ForStmt') and any(x['k'] == 'MemberExpr' and x['ref'].get('name') == '_allMachines' for x in sub(a)) for a in prep.ancestors(s))
-                    c = strip(s['c'][1])
-                    gt = any(x['k'] == 'BinaryOperator' and x.get('op') == '>' for x in sub(c['c'][0]))
-                    mem = any(x['k'] == 'MemberExpr' and x['ref'].get('name') == src_member for x in sub(c))
-                    if in_loop and gt and mem:
+                    if in_loop:
                         over_all = True
         rep.check(is_ceil and over_all, 'R04.3', 'generator|' + member, locstr(asg[0]), '%s = ceil(x / 8): %s; x = maximum of %s.size() over all machines: %s' % (member, is_ceil, src_member, over_all))
     wm = fb.fn('uscxml::ChartToC::writeMacros')
